@@ -450,17 +450,21 @@ fn family_expiry(g: &mut G, rng: &mut Rng, thorough: bool) {
         for sct in [true, false] {
             for check in [true, false] {
                 for dur in durs {
-                    for xi in 0..4 {
+                    for xi in 0..7 {
                         for order in 0..3u8 {
                             // quick tier: a seeded 1/6 sample of the grid (every skew/SCT/check combination stays covered)
-                            if !thorough && !rng.chance(1, 6) {
+                            if !thorough && !rng.chance(1, 8) {
                                 continue;
                             }
                             let x: i64 = match xi {
                                 0 => -(dur as i64) + 1,
                                 1 => -3,
                                 2 => 3,
-                                _ => 3600,
+                                3 => 3600,
+                                // inside the excluded +-2 s band: no oracle verdict, but the comparison with the model is exact
+                                4 => 0,
+                                5 => 1,
+                                _ => -1,
                             };
                             n += 1;
                             expiry_case(g, rng, n, si, *skew_s * SEC, sct, check, dur, x, order);
